@@ -3,6 +3,7 @@ import GoUefi.Driver.SigDb
 import GoUefi.Driver.AuthDesc
 import GoUefi.Driver.Boot
 import GoUefi.Driver.Pkcs7
+import GoUefi.Driver.Pe
 /-
   Line protocol driver: one operation per line in (`<id> <op> <args…>`), one canonical line
   out (`<id> <result>`).  Unknown operations and malformed arguments answer `bad-op`.
@@ -10,7 +11,7 @@ import GoUefi.Driver.Pkcs7
 open GoUefi.Drv
 
 def dispatch (op : String) (args : List String) : String :=
-  let hs : List (String → List String → Option String) := [handleC17, handleSigDb, handleAuth, handleBoot, handlePkcs7]
+  let hs : List (String → List String → Option String) := [handleC17, handleSigDb, handleAuth, handleBoot, handlePkcs7, handlePe]
   match hs.findSome? (fun h => h op args) with
   | some r => r
   | none => "bad-op"
